@@ -137,6 +137,10 @@ def run_c11(ctx: Ctx, M: AnnotateModel):
     okw = any(len(j.values) == 3 and isinstance(j.values[0], ast.Constant) and isinstance(j.values[2], ast.Constant)
               and isinstance(j.values[1], ast.FormattedValue) and norm(j.values[1].value) == P
               and j.values[2].value == "</" + j.values[0].value[1:] for j in wrapped)
+    reb = [x for x in stmts_local(fn.body) if P in assigned_names(x)]
+    ctx.ob("C11-R4", f"utils.{fn.name}/judges-the-span-itself", not reb,
+           "the oracle must parse the span text it was given, not a rewritten copy (the parameter is rebound: "
+           f"{[norm(x)[:60] for x in reb]})", node=reb[0] if reb else fn, mod=M.um)
     ctx.ob("C11-R4", f"utils.{fn.name}/single-root", okw, "the fragment is parsed inside exactly one enclosing element", node=fn, mod=M.um)
 
 
